@@ -226,10 +226,13 @@ fn atom_members(src: &mut Src, kind: AtomKind, i: usize, truth: bool, out: &mut 
                 }
                 out.push((q, J::Arr(items)));
             } else {
-                match src.below(4) {
+                match src.below(6) {
                     0 => {}
                     1 => out.push((q, J::Arr(vec![]))),
                     2 => out.push((q, J::Arr(vec![J::Obj(vec![]), J::Int(1)]))),
+                    // the filter is applied to a scalar: selects nothing
+                    4 => out.push((q, J::Str("scalar".into()))),
+                    5 => out.push((q, J::Int(3))),
                     // the member sits on the container itself, not on one of its children
                     _ => out.push((q, J::Obj(vec![(r.clone(), J::Int(1))]))),
                 }
@@ -433,6 +436,44 @@ fn check_formula(f: &F, k: usize, kinds: &[AtomKind], src: &mut Src, as_object: 
         Err(LibErr::Panic(p)) => return Err(Failure::new(format!("panic: {}", p), json!({"query": text, "doc": doc.to_value()}))),
     };
     let got_ids: Vec<i64> = got.iter().map(|n| n.val.get("id").and_then(|x| x.as_i64()).unwrap_or(-1)).collect();
+    // `$` is the root of the document being queried *now*: the query parsed once is evaluated on this
+    // document and then on a variant with every root flag flipped, stored at the same address
+    if kinds[..k].iter().any(|x| *x == AtomKind::RootFlag) && got_ids == exp_ids {
+        if let Ok(ast) = libx::parse(&text) {
+            let mut root2: Vec<(String, J)> = vec![];
+            let mut flip_mask = 0u32;
+            for i in 0..k {
+                if kinds[i] == AtomKind::RootFlag {
+                    flip_mask |= 1 << i;
+                    if !flag_truth[i] {
+                        root2.push((format!("g{}", i), J::Int(1)));
+                    }
+                }
+            }
+            if let J::Obj(m) = &doc {
+                if let Some(h) = m.iter().find(|(k2, _)| k2 == "h") {
+                    root2.push(h.clone());
+                }
+            }
+            let doc2 = J::Obj(root2).sorted();
+            // the children are the same objects; a child built for valuation v now sees the valuation v ^ flip_mask
+            let exp2: Vec<i64> = children.iter().filter(|(v, _)| f.eval(*v ^ flip_mask)).map(|(v, _)| *v as i64).collect();
+            let mut slot: Value = v.clone();
+            let ids = |r: Vec<libx::LibNode>| -> Vec<i64> { r.iter().map(|n| n.val.get("id").and_then(|x| x.as_i64()).unwrap_or(-1)).collect() };
+            let empty = std::collections::HashMap::new();
+            obs.eval(2);
+            let first = libx::process(&slot, &empty, &ast).map(ids);
+            slot.clone_from(&doc2.to_value());
+            let second = libx::process(&slot, &empty, &ast).map(ids);
+            if first.as_ref().ok() != Some(&exp_ids) || second.as_ref().ok() != Some(&exp2) {
+                return Err(Failure::new(
+                    "`$` does not denote the root of the document being queried: a query parsed once gives a wrong result on a second document stored at the same address",
+                    json!({"query": text, "first_doc": doc.to_value(), "second_doc": doc2.to_value(), "formula": f.text(),
+                           "expected_ids_first": exp_ids, "library_first": format!("{:?}", first), "expected_ids_second": exp2, "library_second": format!("{:?}", second)}),
+                ));
+            }
+        }
+    }
     if got_ids != exp_ids {
         return Err(Failure::new(
             "the filter does not keep exactly the children for which its logical expression is true (in order)",
